@@ -13,6 +13,7 @@ Vocabulary (identical to Merge.tla):
           spkg  mod/__init__.py + mod-stubs/__init__.pyi   (-stubs package, module = top module)
           ssub  pkg/mod.py + pkg-stubs/mod.pyi             (-stubs package, module = submodule)
   order = rt | st   which of the two files the directory listing / search path presents first
+  req   = top | mod | obj   what is asked of griffe.load: top-level name, dotted path of the module, dotted path of its first member (`obj`)
 
 The module under test is always called `mod`; alias targets live in the single-file package `tgt`
 (loaded first by the same loader, so `from tgt import fn_a as a` is resolvable at merge time), while
@@ -463,7 +464,10 @@ def run_case(griffe, taps: Taps, case: dict, base: str, *, stubs: bool = True) -
     try:
         tgt = loader.load("tgt", try_relative_path=False)
         taps.alias_roots = [tgt]
-        loader.load(lay["load"], try_relative_path=False, find_stubs_package=lay["stubs_pkg"])
+        # request form (variable ReqOf of the spec): top-level name / dotted module path / dotted object path
+        req = case.get("req", "top")
+        objspec = lay["load"] if req == "top" else ".".join(lay["modpath"] + ([case["obj"]] if req == "obj" and case.get("obj") else []))
+        loader.load(objspec, try_relative_path=False, find_stubs_package=lay["stubs_pkg"])
     except Exception as exc:  # noqa: BLE001
         out["exc"] = type(exc).__name__
         out["exc_text"] = str(exc)[:200]
